@@ -388,6 +388,7 @@ class Run:
                         "case": case,
                         "what": what,
                         "others": [{"key": k, "case": c, "what": w} for k, c, w in unknown_fail[1:10]],
+                        "broken_obligations": [[str(x)[:600] for x in b] for b in self.broken[:10]],
                         "replay_cmd": f"./check {self.pid} --replay {path}",
                     },
                     indent=1,
